@@ -24,6 +24,8 @@ pub enum Fault {
     Single { idx: usize, errno: i32 },
     /// from syscall #idx on, fail every call of the given kind
     Sticky { from: usize, what: StickyKind, errno: i32 },
+    /// the `count` openat2 calls at or after syscall #from fail with EAGAIN, later ones work again
+    Burst { from: usize, count: usize },
 }
 
 #[derive(Clone, Copy, Debug, PartialEq, Eq, Serialize, Deserialize)]
@@ -129,6 +131,9 @@ fn mutating(sys: &Sys) -> bool {
     desc(sys.nr).map(|d| d.mutating).unwrap_or(false) || (sys.name == "openat" && sys.flags & libc::O_CREAT as u64 != 0)
 }
 
+/// How often the library retries an openat2 that reports EAGAIN (src/resolvers/openat2.rs).
+const RETRY_BOUND: usize = 16;
+
 pub fn catalogue(name: &str, fdc: bool, mutating: bool) -> Vec<i32> {
     let mut v = vec![libc::ENOMEM, libc::EACCES, libc::EPERM, libc::EIO, libc::EINTR, libc::ENOSYS, libc::EAGAIN];
     if fdc {
@@ -152,6 +157,10 @@ pub fn run_one(sb: &Sandbox, sc: &Scenario, fault: &Fault, bound: usize) -> RunR
     let f = fault.clone();
     let fired = Arc::new(AtomicBool::new(false));
     let fired2 = fired.clone();
+    let burst_left = Arc::new(std::sync::atomic::AtomicUsize::new(match fault {
+        Fault::Burst { count, .. } => *count,
+        _ => 0,
+    }));
     let hook: Hook = Box::new(move |sys: &Sys, _c: &mut CallRec| {
         if !injectable(sys) {
             return Action::Continue;
@@ -161,6 +170,13 @@ pub fn run_one(sb: &Sandbox, sc: &Scenario, fault: &Fault, bound: usize) -> RunR
             Fault::Single { idx, errno } => {
                 if sys.idx == *idx && !fired2.swap(true, Ordering::SeqCst) {
                     Action::Errno(*errno)
+                } else {
+                    Action::Continue
+                }
+            }
+            Fault::Burst { from, .. } => {
+                if sys.idx >= *from && sys.name == "openat2" && burst_left.fetch_update(Ordering::SeqCst, Ordering::SeqCst, |n| n.checked_sub(1)).is_ok() {
+                    Action::Errno(libc::EAGAIN)
                 } else {
                     Action::Continue
                 }
@@ -339,6 +355,8 @@ fn check_in(sb: &Sandbox, sc: &Scenario, stats: &mut Stats) -> Result<(), Fail> 
             let o2: Vec<usize> = base.trace_names.iter().enumerate().filter(|(_, (n, _, _))| n == "openat2").map(|(i, _)| i).collect();
             for i in o2 {
                 v.push(Fault::Sticky { from: i, what: StickyKind::Openat2, errno: libc::EAGAIN });
+                // exactly one exhausted retry loop (the library retries EAGAIN 16 times), then the kernel co-operates again
+                v.push(Fault::Burst { from: i, count: RETRY_BOUND });
             }
             let fdc: Vec<usize> = base.trace_names.iter().enumerate().filter(|(_, (_, f, _))| *f).map(|(i, _)| i).collect();
             for i in fdc {
@@ -365,6 +383,7 @@ fn check_in(sb: &Sandbox, sc: &Scenario, stats: &mut Stats) -> Result<(), Fail> 
         let fname = match f {
             Fault::Single { idx, errno } => format!("single:{}:{}", base.trace_names.get(*idx).map(|x| x.0.clone()).unwrap_or_default(), errno_name(*errno)),
             Fault::Sticky { what, errno, .. } => format!("sticky:{:?}:{}", what, errno_name(*errno)),
+            Fault::Burst { count, .. } => format!("burst:openat2:EAGAINx{}", count),
             Fault::None => "none".into(),
         };
         let mk = |sig: String, msg: String| -> Fail {
@@ -397,6 +416,17 @@ fn check_in(sb: &Sandbox, sc: &Scenario, stats: &mut Stats) -> Result<(), Fail> 
         }
         if !r.frame.is_empty() {
             return Err(mk(format!("outside-touched:{}:{}", sc.step.name(), fname), r.frame.join("\n  ")));
+        }
+        // a whole retry loop was exhausted (the same lookup got EAGAIN RETRY_BOUND times in a
+        // row): that surfaces as a safety violation, never as a partial result the call goes on with
+        if let Fault::Burst { count, .. } = f {
+            if r.injected.len() == *count && r.injected.windows(2).all(|w| w[0] == w[1]) {
+                stats.class("burst:retry-loop-exhausted");
+                let safety = matches!(&r.out, Out::Err { kind, .. } if kind == "safety");
+                if !safety {
+                    return Err(mk(format!("eagain-exhaustion-not-surfaced:{}", sc.step.name()), format!("openat2 answered EAGAIN to all {} attempts of one lookup, yet the call returned {} instead of a safety violation\n  injected: {} x {:?}", count, r.out.brief(), count, r.injected.first())));
+                }
+            }
         }
         if let Some(p) = &r.fd_problem {
             return Err(mk(format!("fdtable:{}:{}", sc.step.name(), fname), format!("{}\n  injected: {:?}", p, r.injected)));
@@ -442,7 +472,7 @@ fn replay(_ctx: &Ctx, _check: &str, case: &Value) -> Result<(), Fail> {
 pub const PROP: Prop = Prop {
     id: "C10",
     level: "fault_enumeration",
-    rule: "generated scenario = small tree x one library call (every Root operation via Rust or C API, Root::open, try_clone, resolve+reopen, procfs open/open_follow/readlink) x kernel configuration x {cold: fresh process, nothing initialised; warm}. The scenario is traced once; then for EVERY system call index of the trace x EVERY errno of the catalogue applicable to that call (ENOMEM EACCES EPERM EIO EINTR ENOSYS EAGAIN; +EMFILE ENFILE on descriptor-creating calls; +ENOSPC EROFS on mutating calls) the call is re-run from scratch with exactly that failure injected by the seccomp supervisor; plus sticky sequences from every index: EAGAIN on all openat2, EMFILE/ENFILE on all descriptor-creating calls. Oracle: the call returns (syscall-count bound), no panic, no crash, nothing outside the root changed (C03 frame), descriptor table intact (C11), and if it reports success its result and the resulting tree are identical to the un-faulted run. evaluations = injected runs (exhaustive per scenario); non-trivial = the fault actually hit; distinct by (scenario, fault)",
+    rule: "generated scenario = small tree x one library call (every Root operation via Rust or C API, Root::open, try_clone, resolve+reopen, procfs open/open_follow/readlink) x kernel configuration x {cold: fresh process, nothing initialised; warm}. The scenario is traced once; then for EVERY system call index of the trace x EVERY errno of the catalogue applicable to that call (ENOMEM EACCES EPERM EIO EINTR ENOSYS EAGAIN; +EMFILE ENFILE on descriptor-creating calls; +ENOSPC EROFS on mutating calls) the call is re-run from scratch with exactly that failure injected by the seccomp supervisor; plus sequences from every index: EAGAIN on all later openat2, EAGAIN on exactly the next 16 openat2 calls (one exhausted retry loop, then the kernel co-operates again), EMFILE/ENFILE on all descriptor-creating calls. Oracle: the call returns (syscall-count bound), no panic, no crash, nothing outside the root changed (C03 frame), descriptor table intact (C11), and if it reports success its result and the resulting tree are identical to the un-faulted run; 16 EAGAINs in a row for one lookup => the call fails with a safety violation. evaluations = injected runs (exhaustive per scenario); non-trivial = the fault actually hit; distinct by (scenario, fault)",
     assumptions: &["faults are injected at the system-call boundary of the library's thread; close/dup are never failed (the kernel releases the descriptor regardless)", "semantic errnos the library interprets (ENOENT EEXIST ENOTDIR ELOOP EXDEV) are not faults"],
     lanes: |_| 16,
     run_lane,
